@@ -286,7 +286,7 @@ void harness (void) {
   static const int h_pin[H_NSTEPS + 1] = {H_PIN};
   h_perm = h_pin[0];
 #else
-#ifdef H_PERM /* configurations without an exported function never read the flag */
+#ifdef H_PERM /* the permission as a configuration value (props/C13.py runs both values as separate obligations) */
   h_perm = H_PERM;
 #else
   if (nd_bool ()) h_perm = 1; else h_perm = 0; /* a branch, so that the value is a CONSTANT on each path (cbmc --paths does not learn values
